@@ -20,7 +20,7 @@ from ..prov import FuncFacts
 from ..resolve import Ctx, calls_in
 from . import c15
 from .c01 import _Relabel
-from .common import inline_locals, class_closure
+from .common import inline_locals, class_closure, holds
 
 
 def _raises_under(fn: FuncInfo, pred) -> list[ast.Raise]:
@@ -154,7 +154,8 @@ def _type_guards(chk):
                     gn = ff.cfg.node_for(g)
                     # validation inside `if p is not None:` - the if statement itself must dominate the uses
                     for gd in ff.guards(g):
-                        if gd.kind == "if" and gd.polarity and f"{p} is not None" in (norm(gd.test), norm(inline_locals(ff, gd.test))):
+                        if gd.kind == "if" and holds(inline_locals(ff, gd.test), gd.polarity, "IsNot", lambda e: isinstance(e, ast.Name) and e.id == p,
+                                                     lambda e: isinstance(e, ast.Constant) and e.value is None):
                             for stt in ff.statements():
                                 if isinstance(stt, ast.If) and stt.test is gd.test:
                                     gn = ff.cfg.node_of_stmt.get(id(stt), gn)
@@ -310,8 +311,15 @@ def _roles(chk):
     # n_modes sanity
     snm = F("xeofs.utils.sanity_checks.sanity_check_n_modes")
     nraise = len([r for r in walk_no_nested(snm.node) if isinstance(r, ast.Raise)])
-    cases = {type(c.pattern).__name__ + ":" + norm(c.pattern) for m in walk_no_nested(snm.node) if isinstance(m, ast.Match) for c in m.cases}
-    chk.check(nraise >= 4 and any("MatchAs" in c for c in cases), "GUARD.role.n_modes.sanity", snm, snm.node,
+    from .common import chain_heads, switch_cases
+    cases = set()
+    default_raises = False
+    for head in chain_heads(snm.node):
+        sw = switch_cases(head)
+        if sw is not None and sw[0] == "n_modes" and any(str(k).startswith("type:") for ks, _ in sw[1] for k in ks):
+            cases = {str(k) for ks, _ in sw[1] for k in ks}
+            default_raises = sw[2] is not None and any(isinstance(x, ast.Raise) for x in sw[2])
+    chk.check(nraise >= 4 and default_raises and {"type:int", "type:float", "type:str"} <= cases, "GUARD.role.n_modes.sanity", snm, snm.node,
               construct="sanity_check_n_modes: int<1, float outside (0,1], str != 'all', other types raise",
               why=f"n_modes validation lost a case ({nraise} raises, cases {sorted(cases)})")
     for q in ("xeofs.linalg.decomposer.Decomposer", "xeofs.linalg._numpy._svd._SVD"):
@@ -326,7 +334,9 @@ def _roles(chk):
     _role(chk, "rank", gnm, cmp_pred(any_text=("n_modes_precompute", "rank")), "more modes than the rank of the data are no longer refused (numpy SVD wrapper)")
     # alpha
     winit = M("xeofs.preprocessing.whitener.Whitener", "__init__")
-    _role(chk, "alpha", winit, cmp_pred(any_text=("alpha", "< 0")), "a negative alpha is no longer refused")
+    from .common import holds
+    _role(chk, "alpha", winit, lambda g, ff: holds(g.test, True, "Lt", lambda e: "alpha" in norm(e), lambda e: isinstance(e, ast.Constant) and e.value == 0),
+          "a negative alpha is no longer refused")
     # item counts
     ptr = M("xeofs.preprocessing.preprocessor.Preprocessor", "transform")
     _role(chk, "item_count", ptr, cmp_pred(any_text=("len(", "n_data")), "a wrong number of data items is no longer refused at transform",
